@@ -139,6 +139,27 @@ theorem nodes_increasing (length : α) (n : Nat) (hn : 2 ≤ n) (hl : 0 < length
   rw [node_formula length n i hn (List.mem_range.mp hi), node_formula length n j hn (List.mem_range.mp hj)]
   exact mul_lt_mul_of_pos_right (by exact_mod_cast hij) hstep
 
+/-- every sample point lies on the beam: `0 ≤ z_k ≤ length` -/
+theorem nodes_in_range (length : α) (n : Nat) (hn : 2 ≤ n) (hl : 0 < length) :
+    ∀ z ∈ nodes length n, 0 ≤ z ∧ z ≤ length := by
+  intro z hz
+  unfold nodes at hz
+  obtain ⟨i, hi, rfl⟩ := List.mem_map.mp hz
+  have hi' := List.mem_range.mp hi
+  have hpos : (0 : α) < ((n - 1 : Nat) : α) := by
+    have : 0 < n - 1 := by omega
+    exact_mod_cast this
+  rw [node_formula length n i hn hi']
+  have hstep : 0 < length / ((n - 1 : Nat) : α) := div_pos hl hpos
+  constructor
+  · positivity
+  · have hle : (i : α) ≤ ((n - 1 : Nat) : α) := by
+      have : i ≤ n - 1 := by omega
+      exact_mod_cast this
+    calc (i : α) * (length / ((n - 1 : Nat) : α)) ≤ ((n - 1 : Nat) : α) * (length / ((n - 1 : Nat) : α)) :=
+          mul_le_mul_of_nonneg_right hle hstep.le
+      _ = length := by field_simp
+
 /-! ## monotone decay -/
 
 /-- non-negative integrand on sorted abscissae ⇒ non-decreasing, non-negative cumulative trapezoid sums -/
@@ -460,6 +481,35 @@ theorem on_axis_density_antitone (sqrt exp : α → α) (pi n0 speed range sigma
   have hsy' := sigmaZ_pos sqrt exp pi he sigma tany z' hsig
   exact mul_le_mul hll hg (div_nonneg he0 (by positivity)) (le_trans hl'0 hll)
 
+/-- **the whole pipeline** (`Beam.density` on a fresh beam: stopping coefficients from the species samples, attenuation
+table on the `linspace` nodes, interpolator with its 1e-9 margin, z-range clamp, Gaussian): on-axis density never
+increases with z, for every plasma with non-negative densities and partial rates -/
+theorem full_on_axis_antitone (sqrt exp : α → α) (pi echarge amu energy power mass : α) (dir : Vec α)
+    (sigma tanx tany length clampSqr : α) (n : Nat) (clamp : Bool) (targets : List (List (Target α)))
+    (hd : Decay exp (sourceDensity sqrt echarge amu energy power mass) (beamSpeed sqrt echarge amu energy))
+    (he : Env sqrt exp pi) (hsig : 0 < sigma) (hcl : 0 ≤ clampSqr) (hn : 2 ≤ n) (hL : 0 < length)
+    (htn : ∀ ts ∈ targets, ∀ s ∈ ts, 0 ≤ s.n) (htr : ∀ ts ∈ targets, ∀ s ∈ ts, ∀ e m t, 0 ≤ s.rate e m t)
+    (z z' a b : α) (h0 : 0 ≤ z) (hzz : z ≤ z') (hl : z' ≤ length)
+    (ha : beamDensityFull sqrt exp pi echarge amu energy power mass dir sigma tanx tany length n clamp clampSqr targets 0 0 z = some a)
+    (hb : beamDensityFull sqrt exp pi echarge amu energy power mass dir sigma tanx tany length n clamp clampSqr targets 0 0 z' = some b) :
+    b ≤ a := by
+  unfold beamDensityFull at ha hb
+  simp only [calcAttenuation_eq] at ha hb
+  refine on_axis_density_antitone sqrt exp pi _ _ _ sigma tanx tany length clampSqr clamp hd he hsig hcl
+    (nodes length n) _ (nodes_increasing length n hn hL) ?_ z z' a b h0 hzz hl ha hb
+  intro s hs
+  obtain ⟨ts, hts, rfl⟩ := List.mem_map.mp hs
+  exact beamStopping_nonneg sqrt _ _ ts (htn ts hts) (htr ts hts)
+
+/-- … and it vanishes before the source, beyond the length and outside the clamp radius -/
+theorem full_zero_outside (sqrt exp : α → α) (pi echarge amu energy power mass : α) (dir : Vec α)
+    (sigma tanx tany length clampSqr : α) (n : Nat) (clamp : Bool) (targets : List (List (Target α))) (x y z : α)
+    (h : z < 0 ∨ length < z ∨
+      (clamp = true ∧ clampSqr < normRadiusSqr (sigmaZ sqrt sigma tanx z) (sigmaZ sqrt sigma tany z) x y)) :
+    beamDensityFull sqrt exp pi echarge amu energy power mass dir sigma tanx tany length n clamp clampSqr targets x y z = some 0 := by
+  unfold beamDensityFull
+  exact density_zero_outside sqrt exp pi sigma tanx tany length clamp clampSqr _ x y z h
+
 /-! ## direction field -/
 
 /-- `sqrt` contract used for the direction -/
@@ -602,6 +652,24 @@ theorem cross_section_flux_no_stopping (echarge amu energy power mass sigma tanx
   rw [cross_section_integral sigma tanx tany length clampSqr _ z a hsig hz ha,
     no_stopping_constant_flux Real.exp _ _ range Real.exp_zero zs ss hs z a ha]
   exact source_flux Real.sqrt echarge amu energy power mass hv
+
+/-- the same for the whole pipeline on a fresh beam (clamping off): at every `linspace` sample point
+`v ∬ Beam.density dx dy = P/(E m e) · exp(−c_k / v)` with `c_k` the cumulative trapezoid of the documented `S` -/
+theorem full_cross_section_flux_partial (echarge amu energy power mass sigma tanx tany length clampSqr : ℝ)
+    (dir : Vec ℝ) (n : Nat) (targets : List (List (Target ℝ))) (hn : 2 ≤ n) (hL : 0 < length) (hsig : 0 < sigma)
+    (hv : beamSpeed Real.sqrt echarge amu energy ≠ 0) :
+    ∀ q ∈ (nodes length n).zip (cumtrapz ((nodes length n).zip
+        (targets.map (beamStopping Real.sqrt (evAmuFactor echarge amu)
+          (beamVelocity Real.sqrt dir (beamSpeed Real.sqrt echarge amu energy)))))),
+      (∫ p : ℝ × ℝ, (beamDensityFull Real.sqrt Real.exp Real.pi echarge amu energy power mass dir sigma tanx tany
+          length n false clampSqr targets p.1 p.2 q.1).getD 0) * beamSpeed Real.sqrt echarge amu energy
+        = power / (energy * mass * echarge) * Real.exp (-q.2 / beamSpeed Real.sqrt echarge amu energy) := by
+  intro q hq
+  have hz := nodes_in_range length n hn hL q.1 (List.of_mem_zip (a := q.1) (b := q.2) hq).1
+  unfold beamDensityFull
+  simp only [calcAttenuation_eq]
+  exact cross_section_flux_at_nodes_partial echarge amu energy power mass sigma tanx tany length clampSqr 1e-9
+    (by norm_num) hsig (nodes length n) _ (nodes_increasing length n hn hL) hv q hq hz.1 hz.2
 
 /-- derivative of the envelope width: `σ'(z) = z tan²α / σ(z)` -/
 theorem sigmaZ_hasDerivAt (sigma t z : ℝ) (hs : 0 < sigma) :
